@@ -1,4 +1,4 @@
-import PtnModel.Proofs.KryRitz
+import PtnModel.Proofs.KryExact
 /-!
 # C15 — Krylov approximations are bounded, and exact once the Krylov space is exhausted
 
@@ -23,7 +23,9 @@ The map: `IsHermitian` (Hermitian w.r.t. `vdot`) for `ritz_upper` and `expm_norm
 Proved here, for **every** iteration count (`numiter ≥ 1`, also beyond the Krylov dimension, full run or shortened
 result): `ritz_upper`, `ritz_lower` (the two-sided bound), `ritz_vectors` (orthonormal Ritz vectors whose Rayleigh
 quotients are the Ritz values; moreover `A` is diagonal on them), `expm_norm`.
-Not proved (see `obligations/C15.json`): the exactness clauses once the Krylov space is exhausted.
+`ritz_exact`: once the Krylov space is exhausted (last Lanczos residual zero) the Ritz pairs are exact eigenpairs and the
+lowest Ritz value is the smallest eigenvalue reachable from the start vector.
+Not proved (see `obligations/C15.json`): equality of the Krylov exponential with the exact matrix exponential.
 -/
 set_option linter.unusedSectionVars false
 
@@ -228,6 +230,209 @@ theorem expm_norm {Afun : List 𝕜 → List 𝕜} {dnorm : List 𝕜 → ℝ} {
   rw [hsq, ← hb] at ha
   exact (sq_eq_sq₀ hn1 hn2).1 ha
 
+/-- the Krylov space is exhausted by the Lanczos run on `(vstart, numiter)`: the last residual
+`A v_{k-1} - alpha_{k-1} v_{k-1} - beta_{k-2} v_{k-2}` has norm zero (so `A V = V T` exactly; this is what an exact
+breakdown looks like, and it always happens at the latest for `k = dim` of the Krylov space) -/
+def Exhausted (Afun : List 𝕜 → List 𝕜) (dnorm : List 𝕜 → ℝ) (vstart : List 𝕜) (numiter : Nat) : Prop :=
+  ∀ alpha beta V, lanczos Afun dnorm vstart numiter = .ok (alpha, beta, V) →
+    dnorm (lanczosResidual Afun alpha beta V (V.n - 1)) = 0
+
+/-- **Exactness of the Ritz values once the Krylov space is exhausted.**  For a linear Hermitian map, if the last
+Lanczos residual vanishes then
+* every returned Ritz pair is an exact eigenpair of `A` (`A u_e = θ_e u_e`, `u_e` a unit vector),
+* every eigenvalue `λ` of `A` *reachable* from the start vector (possessing an eigenvector `x` with `⟪x, v⟫ ≠ 0`) is
+  real and at least the lowest Ritz value,
+* the lowest Ritz vector itself overlaps the start vector (`⟪u_0, v⟫ ≠ 0`),
+so the lowest Ritz value *is* the smallest eigenvalue reachable from the start vector. -/
+theorem ritz_exact {Afun : List 𝕜 → List 𝕜} {dnorm : List 𝕜 → ℝ} {deigh : List ℝ → List ℝ → List ℝ × Mat ℝ}
+    (hN : NormContract dnorm) {vstart : List 𝕜} {numiter numeig : Nat} {M : Nat → Nat → 𝕜}
+    (hM : ActsAs vstart.length Afun M)
+    (hH : ∀ i j, i < vstart.length → j < vstart.length → conj (M i j) = M j i)
+    (hE : EighAt Afun dnorm deigh vstart numiter) (hX : Exhausted Afun dnorm vstart numiter) (hne : 1 ≤ numeig)
+    {ws : List ℝ} {u : Mat 𝕜} (h : eighKrylov Afun dnorm deigh vstart numiter numeig = .ok (ws, u)) :
+    (∀ e, e < u.n → ∀ i, i < vstart.length →
+      vget (Afun (matCol u e)) i = ((ws.getD e 0 : ℝ) : 𝕜) * vget (matCol u e) i) ∧
+    (∀ (x : List 𝕜) (lam : 𝕜), x.length = vstart.length →
+      (∀ i, i < vstart.length → vget (Afun x) i = lam * vget x i) → vdot vstart.length x vstart ≠ 0 →
+      ∃ r : ℝ, lam = (r : 𝕜) ∧ ws.getD 0 0 ≤ r) ∧
+    0 < u.n ∧ vdot vstart.length (matCol u 0) vstart ≠ 0 := by
+  have hA : IsHermitian vstart.length Afun := hM.isHermitian hH
+  obtain ⟨alpha, beta, V, hl, _, rfl, rfl⟩ := eighKrylov_ok h
+  have hE' := hE alpha beta V hl
+  have hX' := hX alpha beta V hl
+  obtain ⟨st, hc, rfl, rfl, rfl⟩ := lanczos_ok Afun dnorm hl
+  obtain ⟨k, _, hf⟩ := lanczosCore_fin hN hA hc
+  obtain ⟨h0, _, _⟩ := lanczosCore_ok Afun dnorm hc
+  have h0' : 0 < dnorm vstart := of_decide_eq_true h0
+  have hn : 0 < vstart.length := hN.pos_dim h0'
+  have hk : st.alpha.length = k := hf.sized.1
+  have hv : st.V.length = k := hf.sized.2.2
+  have hfirst := lanczosCore_first Afun dnorm hc
+  have hnrm : ((dnorm vstart : ℝ) : 𝕜) ≠ 0 := by exact_mod_cast h0'.ne'
+  -- the residual vanishes entrywise
+  have hz : ∀ i, i < vstart.length → vget (lzRes Afun vstart.length st (k - 1)) i = 0 := by
+    intro i _
+    have : (colsMat vstart.length st.V).n = k := hv
+    rw [this, lanczosResidual_eq hf] at hX'
+    exact hN.vget_eq_zero hX' i
+  have hcol : ∀ c, matCol (⟨(colsMat vstart.length st.V).m, min numeig (deigh st.alpha st.beta).2.n,
+      fun i e => sumRange (colsMat vstart.length st.V).n fun c =>
+        (colsMat vstart.length st.V).f i c * RealLike.ofReal ((deigh st.alpha st.beta).2.f c e)⟩ : Mat 𝕜) c =
+      ritzVec vstart.length st.V (deigh st.alpha st.beta).2 c := fun c => rfl
+  have hun : 0 < min numeig (deigh st.alpha st.beta).2.n := by
+    rw [hE'.Un, hk]; have := hf.kpos; omega
+  -- `vstart = nrm • v_0` entrywise
+  have hvs : ∀ i, i < vstart.length → vget vstart i = ((dnorm vstart : ℝ) : 𝕜) * vget (st.vec 0) i := by
+    intro i hi
+    show _ = _ * vget (st.V.getD 0 []) i
+    rw [hfirst, vget_vdiv hi, ofReal_eq]
+    field_simp
+  have hdot : ∀ y, vdot vstart.length y vstart = ((dnorm vstart : ℝ) : 𝕜) * vdot vstart.length y (st.vec 0) := by
+    intro y
+    rw [vdot_eq_sum, vdot_eq_sum, mul_sum]
+    exact sum_congr rfl fun i hi => by rw [hvs i (mem_range.1 hi)]; ring
+  refine ⟨?_, ?_, hun, ?_⟩
+  · intro e he i hi
+    have he1 : e < min numeig (deigh st.alpha st.beta).2.n := he
+    rw [hE'.Un, hk] at he1
+    rw [hcol e, getD_take_lt (by omega : e < numeig)]
+    exact hf.ritz_eigen hM hz hE' (by omega) hi
+  · intro x lam hx heig hov
+    have hov' : vdot vstart.length (st.vec 0) x ≠ 0 := by
+      intro hc0
+      apply hov
+      rw [hdot x, ← vdot_conj, hc0, map_zero, mul_zero]
+    obtain ⟨e, he, hlam⟩ := hf.reachable hA hz hE' hx heig hov'
+    refine ⟨(deigh st.alpha st.beta).1.getD e 0, hlam, ?_⟩
+    rw [getD_take_zero hne]
+    exact hE'.asc 0 e (Nat.zero_le _) (by rw [hk]; exact he)
+  · rw [hcol 0, hdot]
+    have hcomb := ritzVec_comb vstart.length st.V (deigh st.alpha st.beta).2 0
+    rw [vdot_comb hcomb (IsComb.self vstart.length (st.vec 0)), hv]
+    have e1 : ∀ c ∈ range k, ∑ d ∈ range 1, conj (((deigh st.alpha st.beta).2.f c 0 : ℝ) : 𝕜) * 1 *
+        vdot vstart.length (st.V.getD c []) (st.vec 0) =
+        if c = 0 then (((deigh st.alpha st.beta).2.f 0 0 : ℝ) : 𝕜) else 0 := by
+      intro c hc'
+      rw [sum_range_one, mul_one, RCLike.conj_ofReal, hf.orth c 0 (mem_range.1 hc') hf.kpos]
+      by_cases hc0 : c = 0
+      · subst hc0; rw [if_pos rfl, if_pos rfl, mul_one]
+      · rw [if_neg hc0, if_neg hc0, mul_zero]
+    rw [sum_congr rfl e1, sum_ite_eq' (range k) 0, if_pos (mem_range.2 hf.kpos)]
+    apply mul_ne_zero hnrm
+    have hb : ∀ i, i + 1 < st.alpha.length → st.beta.getD i 0 ≠ 0 := by
+      intro i hi hc0
+      have h1 := hf.bpos i (by rw [hk] at hi; exact hi)
+      have h2 := breakdownThr_pos (n := vstart.length) hn
+      have h3 : st.be i = 0 := hc0
+      rw [h3] at h1
+      linarith
+    have := hE'.first_ne_zero hb (e := 0) (by rw [hk]; exact hf.kpos)
+    exact_mod_cast this
+
+/-- **Exactness of the Hermitian Krylov exponential once the Krylov space is exhausted — spectral form (partial).**
+For a linear Hermitian map, if the last Lanczos residual vanishes, the result of the Hermitian branch is the *spectral*
+exponential applied to `v`: there are exact unit eigenvectors `u_e` of `A` with real eigenvalues `θ_e` and coefficients
+`c_e` such that `v = ∑ c_e u_e` and the result is `∑ exp(dt θ_e) c_e u_e`, for every (complex) `dt`.
+
+What is missing for the full clause of C15: (1) the identification of `x ↦ ∑ exp(dt θ_e) c_e u_e` with the matrix
+exponential `expm(dt A) @ v` defined by the power series (no limit/`exp` of matrices is used here; `dexp` is an
+uninterpreted oracle, so the statement holds for *every* scalar function in place of `exp`); (2) the general
+(Arnoldi / `scipy.linalg.expm`) branch. -/
+theorem expm_exact_partial {Afun : List 𝕜 → List 𝕜} {dnorm : List 𝕜 → ℝ} {deigh : List ℝ → List ℝ → List ℝ × Mat ℝ}
+    {dexp : 𝕜 → 𝕜} {dexpm : Mat 𝕜 → Mat 𝕜}
+    (hN : NormContract dnorm) {v : List 𝕜} {numiter : Nat} {M : Nat → Nat → 𝕜}
+    (hM : ActsAs v.length Afun M)
+    (hH : ∀ i j, i < v.length → j < v.length → conj (M i j) = M j i)
+    (hE : EighAt Afun dnorm deigh v numiter) (hX : Exhausted Afun dnorm v numiter) {dt : 𝕜}
+    {r : List 𝕜} (h : expmKrylov Afun dnorm deigh dexp dexpm v dt numiter true = .ok r) :
+    ∃ (k : Nat) (θ : Nat → ℝ) (c : Nat → 𝕜) (u : Nat → List 𝕜),
+      (∀ e, e < k → (u e).length = v.length ∧ vdot v.length (u e) (u e) = 1 ∧
+        ∀ i, i < v.length → vget (Afun (u e)) i = ((θ e : ℝ) : 𝕜) * vget (u e) i) ∧
+      (∀ i, i < v.length → vget v i = ∑ e ∈ range k, c e * vget (u e) i) ∧
+      r.length = v.length ∧
+      (∀ i, i < v.length → vget r i = ∑ e ∈ range k, dexp (dt * ((θ e : ℝ) : 𝕜)) * c e * vget (u e) i) := by
+  have hA : IsHermitian v.length Afun := hM.isHermitian hH
+  obtain ⟨alpha, beta, V, hl, _, _, _, rfl⟩ := expmKrylov_herm_ok h
+  have hE' := hE alpha beta V hl
+  have hX' := hX alpha beta V hl
+  obtain ⟨st, hc, rfl, rfl, rfl⟩ := lanczos_ok Afun dnorm hl
+  obtain ⟨k, _, hf⟩ := lanczosCore_fin hN hA hc
+  obtain ⟨h0, _, _⟩ := lanczosCore_ok Afun dnorm hc
+  have h0' : 0 < dnorm v := of_decide_eq_true h0
+  have hk : st.alpha.length = k := hf.sized.1
+  have hv : st.V.length = k := hf.sized.2.2
+  have hfirst := lanczosCore_first Afun dnorm hc
+  have hnrm : ((dnorm v : ℝ) : 𝕜) ≠ 0 := by exact_mod_cast h0'.ne'
+  have hz : ∀ i, i < v.length → vget (lzRes Afun v.length st (k - 1)) i = 0 := by
+    intro i _
+    have : (colsMat v.length st.V).n = k := hv
+    rw [this, lanczosResidual_eq hf] at hX'
+    exact hN.vget_eq_zero hX' i
+  set U := (deigh st.alpha st.beta).2 with hU
+  set w := (deigh st.alpha st.beta).1 with hw
+  have hUm : U.m = k := by rw [hE'.Um, hk]
+  have hUn : U.n = k := by rw [hE'.Un, hk]
+  set cc : Nat → 𝕜 := fun a => RealLike.ofReal (dnorm v) * dexp (dt * RealLike.ofReal (w.getD a 0)) *
+    RealLike.ofReal (U.f 0 a) with hcc
+  set clist : List 𝕜 := (List.range U.n).map cc with hclist
+  set ylist : List 𝕜 := (List.range U.m).map fun r => sumRange U.n fun a => RealLike.ofReal (U.f r a) * vget clist a
+    with hylist
+  have hcl : ∀ a, a < k → vget clist a = cc a := fun a ha => by
+    rw [hclist, vget_map_range, if_pos (by rw [hUn]; exact ha)]
+  have hyl : ∀ c, c < k → vget ylist c = ∑ a ∈ range k, ((U.f c a : ℝ) : 𝕜) * cc a := fun c hc' => by
+    rw [hylist, vget_map_range, if_pos (by rw [hUm]; exact hc'), sumRange_eq_sum, hUn]
+    exact sum_congr rfl fun a ha => by rw [hcl a (mem_range.1 ha), ofReal_eq]
+  set res : List 𝕜 := (List.range (colsMat v.length st.V).m).map fun i =>
+    sumRange (colsMat v.length st.V).n fun c => (colsMat v.length st.V).f i c * vget ylist c with hres
+  have hrl : res.length = v.length := by simp [hres, colsMat]
+  -- entries of the Ritz vectors
+  have hu : ∀ e i, i < v.length → vget (ritzVec v.length st.V U e) i =
+      ∑ c ∈ range k, ((U.f c e : ℝ) : 𝕜) * vget (st.vec c) i := fun e i hi => by
+    rw [ritzVec_comb v.length st.V U e i hi, hv]
+  refine ⟨k, fun e => w.getD e 0, fun e => ((dnorm v : ℝ) : 𝕜) * ((U.f 0 e : ℝ) : 𝕜),
+    fun e => ritzVec v.length st.V U e, ?_, ?_, hrl, ?_⟩
+  · intro e he
+    refine ⟨length_ritzVec _ _ _ _, ?_, fun i hi => hf.ritz_eigen hM hz hE' he hi⟩
+    have := hf.ritz_orth hE' he he
+    rwa [if_pos rfl] at this
+  · intro i hi
+    -- v = nrm v_0 and v_0 = ∑_e U[0, e] u_e
+    have hvs : vget v i = ((dnorm v : ℝ) : 𝕜) * vget (st.vec 0) i := by
+      show _ = _ * vget (st.V.getD 0 []) i
+      rw [hfirst, vget_vdiv hi, ofReal_eq]
+      field_simp
+    have e1 : ∀ e ∈ range k, ((dnorm v : ℝ) : 𝕜) * ((U.f 0 e : ℝ) : 𝕜) * vget (ritzVec v.length st.V U e) i =
+        ∑ c ∈ range k, ((dnorm v : ℝ) : 𝕜) * (((U.f 0 e * U.f c e : ℝ) : 𝕜) * vget (st.vec c) i) := by
+      intro e _
+      rw [hu e i hi, mul_sum]
+      exact sum_congr rfl fun c _ => by push_cast; ring
+    rw [sum_congr rfl e1, sum_comm]
+    have e2 : ∀ c ∈ range k, ∑ e ∈ range k, ((dnorm v : ℝ) : 𝕜) * (((U.f 0 e * U.f c e : ℝ) : 𝕜) * vget (st.vec c) i) =
+        if c = 0 then ((dnorm v : ℝ) : 𝕜) * vget (st.vec 0) i else 0 := by
+      intro c hc'
+      rw [← mul_sum, ← sum_mul, ← RCLike.ofReal_sum]
+      have := hE'.orthr 0 c (by rw [hk]; exact hf.kpos) (by rw [hk]; exact mem_range.1 hc')
+      rw [hk] at this
+      rw [this]
+      by_cases hc0 : c = 0
+      · subst hc0; rw [if_pos rfl, if_pos rfl, RCLike.ofReal_one, one_mul]
+      · rw [if_neg (Ne.symm hc0), if_neg hc0, RCLike.ofReal_zero, zero_mul, mul_zero]
+    rw [sum_congr rfl e2, sum_ite_eq' (range k) 0, if_pos (mem_range.2 hf.kpos), hvs]
+  · intro i hi
+    rw [hres, vget_map_range, if_pos (by simpa [colsMat] using hi), sumRange_eq_sum]
+    show ∑ c ∈ range st.V.length, vget (st.V.getD c []) i * vget ylist c = _
+    rw [hv]
+    have e1 : ∀ c ∈ range k, vget (st.V.getD c []) i * vget ylist c =
+        ∑ a ∈ range k, cc a * (((U.f c a : ℝ) : 𝕜) * vget (st.vec c) i) := by
+      intro c hc'
+      rw [hyl c (mem_range.1 hc'), mul_sum]
+      exact sum_congr rfl fun a _ => by ring
+    rw [sum_congr rfl e1, sum_comm]
+    refine sum_congr rfl fun a _ => ?_
+    rw [← mul_sum, ← hu a i hi, hcc]
+    simp only [ofReal_eq]
+    ring
+
 /-! ### non-vacuity -/
 
 /-- `EighSpec` is satisfiable by a genuinely non-diagonal decomposition: `[[0, 1], [1, 0]] = U diag(-1, 1) Uᵀ` with
@@ -304,6 +509,151 @@ example : ∃ (Afun : List ℝ → List ℝ) (M : Nat → Nat → ℝ) (dnorm : 
   rw [hl]
   simp only [bind, Except.bind]
   rw [if_neg (by rw [hVn, hE'.Um]; simp)]
+  exact ⟨_, rfl⟩
+
+/-- the hypotheses of `ritz_exact` and `expm_exact_partial` (including `Exhausted`) are jointly satisfiable and both
+calls return: the map
+`x ↦ 2 x` on `ℝ²` (every vector is an eigenvector, so one iteration exhausts the Krylov space), the 2-norm, the exact
+eigen-decomposition of the `1 × 1` matrix. -/
+example : ∃ (Afun : List ℝ → List ℝ) (M : Nat → Nat → ℝ) (dnorm : List ℝ → ℝ)
+    (deigh : List ℝ → List ℝ → List ℝ × Mat ℝ) (vstart : List ℝ),
+    NormContract dnorm ∧ ActsAs vstart.length Afun M ∧
+    (∀ i j, i < vstart.length → j < vstart.length → (starRingEnd ℝ) (M i j) = M j i) ∧
+    EighAt Afun dnorm deigh vstart 1 ∧ Exhausted Afun dnorm vstart 1 ∧
+    (∃ r, eighKrylov Afun dnorm deigh vstart 1 1 = .ok r) ∧
+    ∃ r, expmKrylov Afun dnorm deigh (fun _ => 1) id vstart 1 1 true = .ok r := by
+  let Afun : List ℝ → List ℝ := fun x => vscale 2 2 x
+  let M : Nat → Nat → ℝ := fun i j => if i = j then 2 else 0
+  let deigh : List ℝ → List ℝ → List ℝ × Mat ℝ := fun al _ => (al, ⟨al.length, al.length, fun _ _ => 1⟩)
+  have hM : ActsAs 2 Afun M := by
+    intro x _ i hi
+    show vget (vscale 2 2 x) i = _
+    rw [vget_vscale hi, Finset.sum_eq_single i]
+    · simp [M]
+    · intro j _ hne; simp [M, Ne.symm hne]
+    · intro h; exact absurd (Finset.mem_range.2 hi) h
+  have hH : ∀ i j, i < 2 → j < 2 → (starRingEnd ℝ) (M i j) = M j i := by
+    intro i j _ _
+    simp only [M, RCLike.conj_to_real]
+    by_cases h : i = j
+    · subst h; rfl
+    · rw [if_neg h, if_neg (Ne.symm h)]
+  have hA : IsHermitian 2 Afun := hM.isHermitian hH
+  have hAt : EighAt Afun sqrtNorm deigh [1, 0] 1 := by
+    intro alpha beta V hl
+    obtain ⟨h1, h2, h3, _, _⟩ := lanczos_sizes _ _ hl
+    have hlen : alpha.length = 1 := by omega
+    have hb : beta = [] := List.eq_nil_of_length_eq_zero (by omega)
+    obtain ⟨a, rfl⟩ : ∃ a, alpha = [a] := by
+      match alpha, hlen with
+      | [a], _ => exact ⟨a, rfl⟩
+    subst hb
+    refine ⟨rfl, rfl, rfl, ?_, ?_, ?_, ?_⟩
+    · intro i j hij hj
+      have : j = 0 := by simpa using hj
+      subst this
+      have : i = 0 := by omega
+      subst this; exact le_refl _
+    all_goals
+      intro a' b' ha' hb'
+      have ha'' : a' = 0 := by simpa using ha'
+      have hb'' : b' = 0 := by simpa using hb'
+      subst ha''; subst hb''
+      simp [deigh, tridiag]
+  have hEx : Exhausted Afun sqrtNorm [1, 0] 1 := by
+    intro alpha beta V hl
+    obtain ⟨st, hc, rfl, rfl, rfl⟩ := lanczos_ok Afun sqrtNorm hl
+    obtain ⟨k, hk1, hf⟩ := lanczosCore_fin sqrtNorm_contract (vstart := [1, 0]) hA hc
+    have hk : k = 1 := by have := hf.kpos; omega
+    subst hk
+    have hv : (colsMat ([1, 0] : List ℝ).length st.V).n = 1 := hf.sized.2.2
+    rw [hv, lanczosResidual_eq hf]
+    -- the residual `2 v_0 - alpha_0 v_0` vanishes entrywise because `alpha_0 = 2`
+    have horth : vdot 2 (st.vec 0) (st.vec 0) = 1 := by
+      have := hf.orth 0 0 (by omega) (by omega)
+      rwa [if_pos rfl] at this
+    have hal : st.al 0 = 2 := by
+      have := hf.last
+      rw [this]
+      show RCLike.re (vdot 2 (vscale 2 2 (st.vec 0)) (st.vec 0)) = 2
+      rw [vdot_vscale_left, horth]; simp
+    have hzero : ∀ z ∈ lzRes Afun ([1, 0] : List ℝ).length st (1 - 1), z = 0 := by
+      intro z hz
+      unfold lzRes vsub at hz
+      simp only [List.mem_map, List.mem_range] at hz
+      obtain ⟨i, hi, rfl⟩ := hz
+      have hi : i < 2 := hi
+      rw [if_neg (by omega)]
+      show vget (vscale 2 2 (st.vec 0)) i - vget (vscale 2 (RealLike.ofReal (st.al 0)) (st.vec 0)) i = 0
+      rw [vget_vscale hi, vget_vscale hi, hal]
+      show 2 * _ - (2 : ℝ) * _ = 0
+      ring
+    show Real.sqrt (sqNorm _) = 0
+    rw [(sqNorm_eq_zero_iff _).2 hzero, Real.sqrt_zero]
+  refine ⟨Afun, M, sqrtNorm, deigh, [1, 0], sqrtNorm_contract, hM, hH, hAt, hEx, ?_, ?_⟩
+  all_goals
+    obtain ⟨⟨alpha, beta, V⟩, hl⟩ := lanczos_isOk Afun (sqrtNorm (𝕜 := ℝ)) (vstart := [1, 0]) (numiter := 1)
+      ((sqrtNorm_contract.pos_iff _).2 ⟨1, by simp, one_ne_zero⟩) (by omega)
+    have hE' := hAt alpha beta V hl
+    obtain ⟨h1, _, _, _, hVn⟩ := lanczos_sizes _ _ hl
+  · unfold eighKrylov
+    rw [hl]
+    simp only [bind, Except.bind]
+    rw [if_neg (by rw [hVn, hE'.Um]; simp)]
+    exact ⟨_, rfl⟩
+  · unfold expmKrylov
+    simp only [if_true]
+    rw [hl]
+    simp only [bind, Except.bind]
+    rw [if_neg (by rw [hE'.Um]; omega), if_neg (by rw [hE'.wlen, hE'.Un]; simp), if_neg (by rw [hVn, hE'.Um]; simp)]
+    exact ⟨_, rfl⟩
+
+/-- the hypotheses of `expm_norm` are jointly satisfiable and the call returns (one iteration, `dexp ≡ 1`) -/
+example : ∃ (Afun : List ℝ → List ℝ) (dnorm : List ℝ → ℝ) (deigh : List ℝ → List ℝ → List ℝ × Mat ℝ)
+    (dexp : ℝ → ℝ) (v : List ℝ),
+    NormContract dnorm ∧ IsHermitian v.length Afun ∧ EighAt Afun dnorm deigh v 1 ∧
+    (∀ x : ℝ, ‖dexp (RCLike.I * (x : ℝ))‖ = 1) ∧
+    ∃ r, expmKrylov Afun dnorm deigh dexp id v (RCLike.I * ((1 : ℝ) : ℝ)) 1 true = .ok r := by
+  let A : Mat ℝ := ⟨2, 2, fun i k => if i = k then 2 else 1⟩
+  let deigh : List ℝ → List ℝ → List ℝ × Mat ℝ := fun al _ => (al, ⟨al.length, al.length, fun _ _ => 1⟩)
+  have hH : ∀ i j, i < 2 → j < 2 → (starRingEnd ℝ) (A.f i j) = A.f j i := by
+    intro i k _ _
+    simp only [A, RCLike.conj_to_real]
+    by_cases h : i = k
+    · subst h; rfl
+    · rw [if_neg h, if_neg (Ne.symm h)]
+  have hAt : EighAt (matvec A) sqrtNorm deigh [1, 0] 1 := by
+    intro alpha beta V hl
+    obtain ⟨h1, h2, h3, _, _⟩ := lanczos_sizes _ _ hl
+    have hlen : alpha.length = 1 := by omega
+    have hb : beta = [] := List.eq_nil_of_length_eq_zero (by omega)
+    obtain ⟨a, rfl⟩ : ∃ a, alpha = [a] := by
+      match alpha, hlen with
+      | [a], _ => exact ⟨a, rfl⟩
+    subst hb
+    refine ⟨rfl, rfl, rfl, ?_, ?_, ?_, ?_⟩
+    · intro i j hij hj
+      have : j = 0 := by simpa using hj
+      subst this
+      have : i = 0 := by omega
+      subst this; exact le_refl _
+    all_goals
+      intro a' b' ha' hb'
+      have ha'' : a' = 0 := by simpa using ha'
+      have hb'' : b' = 0 := by simpa using hb'
+      subst ha''; subst hb''
+      simp [deigh, tridiag]
+  refine ⟨matvec A, sqrtNorm, deigh, fun _ => 1, [1, 0], sqrtNorm_contract,
+    isHermitian_matvec A rfl rfl hH, hAt, fun _ => by simp, ?_⟩
+  obtain ⟨⟨alpha, beta, V⟩, hl⟩ := lanczos_isOk (matvec A) (sqrtNorm (𝕜 := ℝ)) (vstart := [1, 0]) (numiter := 1)
+    ((sqrtNorm_contract.pos_iff _).2 ⟨1, by simp, one_ne_zero⟩) (by omega)
+  have hE' := hAt alpha beta V hl
+  obtain ⟨h1, _, _, _, hVn⟩ := lanczos_sizes _ _ hl
+  unfold expmKrylov
+  simp only [if_true]
+  rw [hl]
+  simp only [bind, Except.bind]
+  rw [if_neg (by rw [hE'.Um]; omega), if_neg (by rw [hE'.wlen, hE'.Un]; simp), if_neg (by rw [hVn, hE'.Um]; simp)]
   exact ⟨_, rfl⟩
 
 /-- the hypothesis on `dexp` of `expm_norm` is satisfiable: any function into the unit circle, e.g. the constant `1`
